@@ -425,55 +425,84 @@ def main():
         for ob in obs:
             key = (ob["crate"], ob.get("flags", "full"), ob.get("jobs_class", "n"))
             groups.setdefault(key, []).append(ob)
-        for (crate, fg, jc), gobs in groups.items():
+        import threading
+        lock = threading.Lock()
+        budget = threading.Semaphore(3)   # at most three groups (cargo kani invocations) at a time, each with its own target dir
+
+        def run_group(key, gobs, tools_box):
+            crate, fg, jc = key
             if crate == "__verus__":
                 for o in gobs:
                     r = run_verus(o, logdir)
                     verdict, reason, failing = classify(o, r)
                     if verdict == "refuted":
                         verdict, reason = "undecided", "verus did not verify the lemma file: " + reason
-                    results.append(dict(ob=o, verdict=verdict, reason=reason, r=r, cmd="verus %s" % o["file"], failing=[], flags=[]))
-                continue
-            flags = FLAG_GROUPS[fg]
-            tmo = max(o.get("timeout", 600) for o in gobs)
-            mem = max(o.get("mem_gb", 3) for o in gobs)
-            jobs = max(1, min(a.jobs, len(gobs), int(56 // mem)))
-            out_json = os.path.join(logdir, "%s.%s.%s.json" % (crate, fg, jc))
-            logf = os.path.join(logdir, "%s.%s.%s.log" % (crate, fg, jc))
-            log("[%s] kani: crate=%s flags=%s harnesses=%d jobs=%d timeout=%ds" % (prop, crate, fg, len(gobs), jobs, tmo))
-            rc, wall, cmd = run_kani(ws, crate, [o["harness"] for o in gobs], flags, jobs, tmo, out_json, logf, mem_gb=max(16, 2 * mem))
-            parsed = parse_export(out_json)
-            if not parsed and any(l.startswith("error") for l in open(logf).read().split("\n")):
-                # a harness module that this run does not need may have lost its anchor (e.g. a helper's signature
-                # changed): retry once with only the harness modules of the selected obligations woven in
-                mods = set()
-                for o in obs:
-                    mods.update(x for x in o["harness"].split("::")[:-1])
-                log("[%s] woven copy did not compile; retrying with the minimal harness set %s" % (prop, sorted(mods)))
-                try:
-                    weave(ws, vcopy, only_mods=mods)
-                    rc, wall, cmd = run_kani(ws, crate, [o["harness"] for o in gobs], flags, jobs, tmo, out_json, logf, mem_gb=max(16, 2 * mem))
+                    with lock:
+                        results.append(dict(ob=o, verdict=verdict, reason=reason, r=r, cmd="verus %s" % o["file"], failing=[], flags=[]))
+                return
+            with budget:
+                flags = FLAG_GROUPS[fg]
+                tmo = max(o.get("timeout", 600) for o in gobs)
+                mem = max(o.get("mem_gb", 3) for o in gobs)
+                share = max(1, len(groups) if len(groups) < 3 else 3)
+                jobs = max(1, min(a.jobs // (1 if len(groups) == 1 else 2), len(gobs), int((56 // share) // mem) or 1))
+                tag = "%s.%s.%s" % (crate, fg, jc)
+                out_json = os.path.join(logdir, tag + ".json")
+                logf = os.path.join(logdir, tag + ".log")
+                tdir = ["--target-dir", os.path.join(scratch, "target." + tag)]
+                log("[%s] kani: crate=%s flags=%s harnesses=%d jobs=%d timeout=%ds" % (prop, crate, fg, len(gobs), jobs, tmo))
+                rc, wall, cmd = run_kani(ws, crate, [o["harness"] for o in gobs], flags + tdir, jobs, tmo, out_json, logf, mem_gb=max(16, 2 * mem))
+                parsed = parse_export(out_json)
+                if not parsed and any(l.startswith("error") for l in open(logf).read().split("\n")):
+                    with lock:
+                        # a harness module that this run does not need may have lost its anchor (e.g. a helper's signature
+                        # changed): retry once with only the harness modules of the selected obligations woven in
+                        mods = set()
+                        for o in obs:
+                            mods.update(x for x in o["harness"].split("::")[:-1])
+                        if not getattr(run_group, "minimal", False):
+                            log("[%s] woven copy did not compile; re-weaving with the minimal harness set %s" % (prop, sorted(mods)))
+                            try:
+                                weave(ws, vcopy, only_mods=mods)
+                                run_group.minimal = True
+                            except Undecided:
+                                pass
+                    rc, wall, cmd = run_kani(ws, crate, [o["harness"] for o in gobs], flags + tdir, jobs, tmo, out_json, logf, mem_gb=max(16, 2 * mem))
                     parsed = parse_export(out_json)
-                except Undecided:
-                    parsed = {}
-            tools = parsed.pop("__tools__", tools) if parsed else tools
-            if not parsed:
-                lines = open(logf).read().split("\n")
-                errs = [l for l in lines if l.startswith("error")]
-                shown = 0
-                for i, l in enumerate(lines):
-                    if l.startswith("error") and shown < 8:
-                        log("\n".join(lines[i:i + 14]))
-                        shown += 1
-                if not errs:
-                    log("\n".join(lines[-30:]))
-                for o in gobs:
-                    results.append(dict(ob=o, verdict="undecided", reason="woven copy did not compile or Kani crashed: %s" % "; ".join(errs[:3]), r=None, cmd=cmd))
-                continue
-            for o in gobs:
-                r = parsed.get(o["harness"])
-                verdict, reason, failing = classify(o, r)
-                results.append(dict(ob=o, verdict=verdict, reason=reason, r=r, cmd=cmd, failing=failing, flags=flags))
+                if parsed:
+                    t = parsed.pop("__tools__", None)
+                    if t:
+                        tools_box.update(t)
+                if not parsed:
+                    lines = open(logf).read().split("\n")
+                    errs = [l for l in lines if l.startswith("error")]
+                    shown = 0
+                    with lock:
+                        for i, l in enumerate(lines):
+                            if l.startswith("error") and shown < 8:
+                                log("\n".join(lines[i:i + 14]))
+                                shown += 1
+                        if not errs:
+                            log("\n".join(lines[-30:]))
+                        for o in gobs:
+                            results.append(dict(ob=o, verdict="undecided", reason="woven copy did not compile or Kani crashed: %s" % "; ".join(errs[:3]), r=None, cmd=cmd))
+                    return
+                with lock:
+                    for o in gobs:
+                        r = parsed.get(o["harness"])
+                        verdict, reason, failing = classify(o, r)
+                        results.append(dict(ob=o, verdict=verdict, reason=reason, r=r, cmd=cmd, failing=failing, flags=flags))
+
+        tools_box = {}
+        threads = [threading.Thread(target=run_group, args=(k, g, tools_box)) for k, g in groups.items()]
+        for t in threads:
+            t.start()
+        for t in threads:
+            t.join()
+        tools = tools_box or tools
+        # keep the registry order in the report
+        order = {o["name"]: i for i, o in enumerate(obs)}
+        results.sort(key=lambda r: order.get(r["ob"]["name"], 0))
         # verdicts
         for res in results:
             o = res["ob"]
